@@ -106,8 +106,10 @@ CAND_MON = {
 
 LEVEL = {p: 'model_checking' for p in list(SEQ) + list(CONCUR) + list(CAND)}
 LEVEL.update({p: 'fault_enumeration' for p in FAULT})
+FUZZ = {'C15': dict(quick=dict(n=9600), thorough=dict(n=300000))}
 SURFACE = ('C14', 'C16')
 LEVEL.update({p: 'exploration' for p in SURFACE})
+LEVEL.update({p: 'exploration' for p in FUZZ})
 
 RULES = {
     'C01': 'distinct (allocation-writing request, outcome, inventories, allocations before) whose outcome (204/409) is decided by the inventory / unit / capacity checks',
@@ -686,7 +688,60 @@ def run_surface(prop, tier, seed, model=True):
         'noauth2 middleware stands in for keystone (roles from x-roles, project from the token)'])
 
 
+def run_fuzz(prop, tier, seed, model=True):
+    import multiprocessing as mp
+    from pv import fuzz
+    t0 = time.time()
+    n = FUZZ[prop][tier]['n']
+    nw = 12 if tier == 'quick' else 14
+    jobs = [{'seed': seed * 1009 + w, 'n': n // nw, 'topologies': [False, True]} for w in range(nw)]
+    ctx = mp.get_context('spawn')
+    try:
+        with ctx.Pool(len(jobs)) as pool:
+            results = pool.map(fuzz.worker, jobs, chunksize=1)
+    except tlc.TLCError as ex:
+        raise Machinery(str(ex))
+    total = sum(r['n'] for r in results)
+    if total == 0:
+        raise Machinery('no request was issued')
+    violations, known = [], []
+    hist = {}
+    for r in results:
+        for k, v in r['hist'].items():
+            hist[k] = hist.get(k, 0) + v
+        for bad in r['bad']:
+            tags = []
+            if '\\ud800' in bad['body'] or '%ED%A0%80' in bad['path'] or '\ud800' in bad['body']:
+                tags.append('lone-surrogate')
+            if bad['nested_sharing'] and bad['path'].startswith('/allocation_candidates'):
+                tags.append('nested-sharing-provider')
+            sig = {'engine': 'fuzz', 'monitors': ','.join(bad['monitors']), 'status': bad['status'],
+                   'tags': ','.join(tags)}
+            why = '%s: %s %s (%s) answered %s: %s' % (','.join(bad['monitors']), bad['method'], bad['path'][:200],
+                                                     bad['mutation'], bad['status'], bad['answer'][-160:].replace('\n', ' '))
+            f = findings.lookup(prop, sig)
+            if f:
+                known.append((f, why))
+            else:
+                violations.append((bad, why, sig))
+    statuses = {}
+    for k, v in hist.items():
+        st = k.rsplit(':', 1)[1]
+        statuses[st] = statuses.get(st, 0) + v
+    cov = {'evaluations': total, 'distinct_nontrivial': len(hist),
+           'rule': 'one case = one mutated request (1-3 mutations of structure, types, bounds up to 64-bit integers, unicode / control characters, repeated and conflicting query parameters, headers, media types, malformed JSON, path, method) derived from a valid request to one of 40 seed requests covering every route, in a plain and in a nested-sharing-provider topology; distinct non-trivial = distinct (seed request, status) outcomes',
+           'status_histogram': dict(sorted(statuses.items())),
+           'samples': [r['sample'][0] for r in results if r['sample']][:2],
+           'exhaustive': False}
+    return finish(prop, tier, seed, cov, violations, known, t0, [
+        'the input space is explored by a seeded random mutator, not enumerated and not by TLC; TLC (TraceFuzz.tla) is the oracle of each exchange',
+        'requests are delivered in-process through webob (no real HTTP server in front): framing-level malformations (chunking, oversized headers) are outside',
+        'integers beyond 64 bits are not generated (outside the property\'s bound)'])
+
+
 def run_check(prop, tier, seed, model=True):
+    if prop in FUZZ:
+        return run_fuzz(prop, tier, seed, model=model)
     if prop in SURFACE:
         return run_surface(prop, tier, seed, model=model)
     if prop in CAND:
